@@ -62,6 +62,31 @@ pub fn sub(args: &[String]) -> i32 {
             let seed: u64 = args.get(1).and_then(|s| s.parse().ok()).unwrap_or(1);
             c08::sub_heavy(seed)
         }
+        Some("fuzz-seed") => {
+            let dir = args.get(1).cloned().unwrap_or_else(|| "corpus".into());
+            let seed: u64 = args.get(2).and_then(|s| s.parse().ok()).unwrap_or(1);
+            match crate::fuzz::write_seed_corpus(&dir, 256, seed) {
+                Ok(()) => 0,
+                Err(e) => {
+                    eprintln!("{}", e);
+                    2
+                }
+            }
+        }
+        Some("fuzz-triage") => {
+            // fuzz-triage <totality|agree> <artifact>...: does the artifact reproduce under the monitors?
+            let totality = args.get(1).map(|s| s == "totality").unwrap_or(true);
+            for f in &args[2.min(args.len())..] {
+                match std::fs::read(f) {
+                    Ok(data) => match crate::fuzz::one(&data, totality) {
+                        Some((prop, v)) => println!("REPRODUCED {} property={} monitor={} {}", f, prop, v.monitor, crate::run::truncate(&v.detail, 300)),
+                        None => println!("NOT-REPRODUCED {}", f),
+                    },
+                    Err(e) => println!("UNREADABLE {} {}", f, e),
+                }
+            }
+            0
+        }
         Some("c08-san") => {
             let seed: u64 = args.get(1).and_then(|s| s.parse().ok()).unwrap_or(1);
             let shard: u64 = args.get(2).and_then(|s| s.parse().ok()).unwrap_or(0);
